@@ -15,6 +15,12 @@ CHECKS = {
  'C02': dict(text="Machine-checked Lean 4 proofs for every n, commutative ring and signature: the product defined by the geometric table masked with the code's grade predicate equals the grade r+s / |r-s| (0 for scalar operands) / s-r (0 when r>s) part of A*B on homogeneous operands, is bilinear, and the outer product equals a signature-free wedge that is associative and alternating on vectors. Tied to /repo by comparing the entire omt/imt/lcmt tables and the operators ^ | << lc with the executable model (both JIT configurations) and by evaluating the grade-part predicates on the real operators for every grade pair.",
              technique="Lean 4 proof (popcount/xor grade identity, masked-table product) + table/operator correspondence with the executable model",
              design="§6 C02"),
+ 'C04': dict(text="Machine-checked Lean 4 proofs for every n, commutative ring and signature: the coded exponents g(g-1)//2 and g give the reversion / grade-involution signs for every grade (4-periodicity proved); ~, gradeInvol, conjugate are involutions; ~ and conjugate reverse products, gradeInvol preserves them; even/odd (as coded .5*(M±gradeInvol M)) are the ± parts and sum to M; mag2 is the scalar part of ~M*M with its diagonal formula; over an ordered field normal() is a positive multiple of M with mag2 = ±1 whenever mag2 != 0. Tied to /repo by comparing the library's sign vectors and ~/gradeInvol/conjugate/mag2 with the executable model and by evaluating every law exactly on integer data with the real operators (both JIT configurations).",
+             technique="Lean 4 proof (reversion-sign parity, anti-automorphism via the blade commutation law) + operator correspondence with the executable model",
+             design="§6 C04"),
+ 'C06': dict(text="Machine-checked Lean 4 proofs for every n and commutative ring, with no signature in the statements: b^rc(b)=I and lc(b)^b=I for every basis blade, complements linear and mutually inverse, grade r -> n-r; vee defined as coded (lc(rc A ^ rc B)) satisfies rc(A&B)=rc A^rc B, is associative, has I as identity and maps grades (r,s) to r+s-n; I*I is the scalar table entry the code reads and Iinv is the two-sided inverse of I when that entry is invertible; the combinations-order reverse-complement law (all n, list level) and its executable instance n<=8. Tied to /repo by comparing the complement sign lists and complement/dual/vee results with the executable model, and by evaluating each law on the real operators for all signatures (degenerate included), both JIT configurations.",
+             technique="Lean 4 proof (signature-free wedge sign, complement bitmaps) + correspondence with the executable model",
+             design="§6 C06"),
 }
 
 def main():
